@@ -31,6 +31,8 @@ type Relay struct {
 	Ops         []FrameOp
 	WrongSecret string // base64, used by "wrongkey"
 	RightSecret string // base64, used by "parentkey": the receiver's secret under a name that is not the key's
+	HeldKey     string // "heldkey": the name of another key the receiver holds ...
+	HeldSecret  string // ... and its secret (base64)
 	KeyName     string
 	Alg         string
 	Rewrite     func(kind string, frame []byte) []byte // record-level edits done by the harness (nonsoa, trailing)
@@ -217,6 +219,24 @@ func (p *pump) RunEvent(time.Time) {
 		case "wrongkey":
 			if t, _, has := oracle.FindTSIG(b); has {
 				c := oracle.SignTSIG(oracle.StripTSIG(b), r.KeyName, r.Alg, r.WrongSecret, prior, timers, t.Time, t.Fudge)
+				ok = p.forward(c, false)
+			} else {
+				ok = p.forward(b, inOrder)
+			}
+		case "heldkey":
+			// signed, over the right running MAC, under ANOTHER key the receiver also holds (a peer that is
+			// trusted for something else), or - odd Frac - under the right key with another HMAC algorithm:
+			// not the key and algorithm the request was made under
+			if t, _, has := oracle.FindTSIG(b); has && r.HeldKey != "" {
+				name, alg, secret := r.HeldKey, r.Alg, r.HeldSecret
+				if op.Frac%2 == 1 {
+					name, secret = r.KeyName, r.RightSecret
+					alg = "hmac-sha512."
+					if strings.EqualFold(r.Alg, alg) {
+						alg = "hmac-sha256."
+					}
+				}
+				c := oracle.SignTSIG(oracle.StripTSIG(b), name, alg, secret, prior, timers, t.Time, t.Fudge)
 				ok = p.forward(c, false)
 			} else {
 				ok = p.forward(b, inOrder)
